@@ -1,5 +1,6 @@
 (* C14 Migration: version-gated, preserves the book, idempotent. *)
-From ATS Require Import Prelude Dec DecFacts Uuid Semver Types Contract Tactics Spec MigrateProofs.
+From ATS Require Import Prelude Dec DecFacts Uuid Semver Types Contract Tactics Spec ExactFacts Inv InvAsk InstProofs AskProofs
+  BidFacts InvBid InvStep ExitProofs Ledger MigrateProofs MigrateInv Hist.
 
 (* refused (hence, by the type of the transition, nothing changes) when the stored version is absent,
    unreadable, a pre-release, or older than 0.16.2 *)
@@ -37,6 +38,14 @@ Theorem C14_idempotent : forall e st m st' r,
   forall st'' r', migrate e st' m = Ok (st'', r') -> st'' = st'.
 Proof. exact migrate_idempotent. Qed.
 Print Assumptions C14_idempotent.
+
+(* migrating any state reached by real histories (a state satisfying the invariant): every ask and every bid exactly as
+   it was, no message, and the invariant -- hence every other theorem -- continues to hold afterwards *)
+Theorem C14_preserves_reachable_books : forall e st m st' r,
+  Inv st -> migrate e st m = Ok (st', r) ->
+  st_asks st' = st_asks st /\ st_bids st' = st_bids st /\ r = mkresp [] [] /\ (env_version_ok e -> Inv st').
+Proof. exact migrate_from_inv. Qed.
+Print Assumptions C14_preserves_reachable_books.
 
 Example C14_pkg_version_after_window : forall ver, version_parse "1.0.0" = Some ver -> req_window ver = false.
 Proof. intros ver H. vm_compute in H. injection H as <-. reflexivity. Qed.
